@@ -377,18 +377,25 @@ func join(a, b context, node parse.Node, nodeName string) context {
 // assume after context joining the element or attr containing aName and aNames with the
 // element or attr containing bName and bNames.
 func joinNames(aName, bName string, aNames, bNames []string) []string {
-	var ret []string
-	if aName != bName {
-		ret = append(ret, aName, bName)
+	// All names recorded for a must be kept (they used to be dropped, so that the names of
+	// an inner conditional were lost when joining with an outer branch).
+	ret := append([]string(nil), aNames...)
+	seen := make(map[string]bool)
+	for _, name := range ret {
+		seen[name] = true
 	}
-	aNamesSet := make(map[string]bool)
-	for _, name := range aNames {
-		aNamesSet[name] = true
-	}
-	for _, name := range bNames {
-		if !aNamesSet[name] {
+	add := func(name string) {
+		if !seen[name] {
+			seen[name] = true
 			ret = append(ret, name)
 		}
+	}
+	if aName != bName {
+		add(aName)
+		add(bName)
+	}
+	for _, name := range bNames {
+		add(name)
 	}
 	return ret
 }
